@@ -98,7 +98,7 @@ def run_order_case(name, kw):
             if out0.startswith("EXC:") or out1.startswith("EXC:"):
                 h.check(out0 == out1, "error_text_depends_on_set_iteration_order", detail=(out0[:200], out1[:200]))
             else:
-                outcheck.same_document(h, out0, out1, "output_depends_on_set_iteration_order")
+                outcheck.same_document(h, out0, out1, "output_depends_on_set_iteration_order", ordered=True)
             return out1
 
         return harness
@@ -167,7 +167,7 @@ def run_history_sym_case(name, vary):
         if out_after.startswith("EXC:") or out_fresh.startswith("EXC:"):
             h.check(out_after == out_fresh, "output_depends_on_earlier_conversions", detail=(out_after[:200], out_fresh[:200]))
         else:
-            outcheck.same_document(h, out_after, out_fresh, "output_depends_on_earlier_conversions")
+            outcheck.same_document(h, out_after, out_fresh, "output_depends_on_earlier_conversions", ordered=True)
         return out_after
 
     return C.explore(harness, opts=opts, max_paths=60, timeout_ms=10000)
